@@ -520,3 +520,33 @@ Proof.
   destruct l; [|exact Hdefault].
   eexists. rewrite <- Q1. apply process_trace_ok. rewrite Q2. exact Hopen.
 Qed.
+
+(* the same with the set of names made explicit: the names are those the client sent in THIS message - computed
+   from the message bytes (type, parameter, length field, payload), not existentially chosen *)
+Definition message_names (input : str) : list str :=
+  match firstn 11 input with
+  | [ct; cp; _; _; _; _; _; l0; l1; l2; l3] =>
+      client_names ct cp (firstn (Z.to_nat (u32_of [l0; l1; l2; l3])) (skipn 11 input))
+  | _ => []
+  end.
+
+Theorem message_trace_ok_names : forall cfg w0,
+  sock_open (w_st w0) = true ->
+  Inv (allowed_op cfg (message_names (w_in w0))) (w_ev w0) (snd (handle_message cfg w0)).
+Proof.
+  intros cfg w0 Hopen. unfold handle_message, bind, read_exact. rewrite Hopen. cbn [andb].
+  assert (Hdefault : forall names w1, w_ev w1 = w_ev w0 ->
+            Inv (allowed_op cfg names) (w_ev w0) (snd ((close_client;;; ret false) w1))).
+  { intros names w1 Q1. unfold close_client, bind, emit, get_st, set_st, ret. simpl.
+    exists [CloseClient]. simpl. rewrite Q1. repeat split; auto; try discriminate. }
+  change (Z.to_nat (C19_sz_msg - 1)) with 11%nat.
+  destruct (C19_sz_msg - 1 <=? Zlength (w_in w0)); [|apply Hdefault; reflexivity].
+  unfold message_names.
+  destruct (firstn 11 (w_in w0)) as [|ct l]; [apply Hdefault; reflexivity|].
+  destruct l as [|cp l]; [apply Hdefault; reflexivity|].
+  do 9 (destruct l as [|? l]; [apply Hdefault; reflexivity|]).
+  destruct l; [|apply Hdefault; reflexivity].
+  match goal with |- Inv _ _ (snd (process _ _ _ _ _ ?w)) =>
+    change (w_ev w0) with (w_ev w); change (skipn 11 (w_in w0)) with (w_in w) end.
+  apply process_trace_ok. exact Hopen.
+Qed.
